@@ -647,8 +647,9 @@ class MQTTBaseProtocol(Protocol):
         Handles PINGRESP packet from the server
         '''
         log.debug("<== {packet:7}", packet="PINGRESP")
-        self._pingReq.alarm.cancel()
-        self._pingReq.alarm = None
+        if self._pingReq.alarm is not None:
+            self._pingReq.alarm.cancel()
+            self._pingReq.alarm = None
 
 
     # ---------------------------
@@ -709,10 +710,13 @@ class MQTTBaseProtocol(Protocol):
         '''
         def doPingError():
             log.warn("--- {packet:7} Timeout", packet="PINGREQ")
+            self._pingReq.alarm = None
             self.transport.abortConnection()
         log.debug("==> {packet:7}", packet="PINGREQ")
         self.transport.write(self._pingReq.pdu)
-        self._pingReq.alarm = self.callLater(self._pingReq.keepalive, doPingError)
+        # the deadline of a PINGREQ still waiting for its PINGRESP stays in force
+        if self._pingReq.alarm is None:
+            self._pingReq.alarm = self.callLater(self._pingReq.keepalive, doPingError)
 
     # ------------------------------------------------------------------------
 
